@@ -270,9 +270,11 @@ def gen_single(seed, idx):
     if base_fmt in gen.BITMAP:
         base["bitmap_resolution"] = 32
     # some other non-default options ride along so that "the field" is not the only thing in the file
-    for extra in r.sample(["upem", "ascender", "descender", "width", "family"], r.choice([0, 1, 2])):
+    ride = {"upem": [2048, 1000, 512], "ascender": [880, 1024], "descender": [-120, 0], "width": [1000, 0, 2048], "family": ["Fam B", "Noto Übung"],
+            "linegap": [100, 37], "version_minor": [3, 280], "version_major": [2, 16], "keep_glyph_names": [True], "clipbox_quantization": [16, 50]}
+    for extra in r.sample(sorted(ride), r.choice([0, 1, 2, 3, 4])):
         if extra != field:
-            base[extra] = r.choice(gen.OPTION_VALUES[extra][1:])
+            base[extra] = r.choice(ride[extra])
     # "flag wins" must also hold when the flag restates the documented default against a non-default file value
     if r.random() < 0.3 and _default(field) is not None and field not in base and field not in ("bitmap_resolution", "glyphmap_generator", "pngquant_flags", "transform"):
         value = _default(field)
@@ -452,6 +454,13 @@ def _check_observables(opts, info, field=None):
             bad.append(("bitmap_resolution->CBLC ppem", [got, exp]))
         if fmt == "sbix" and got != [exp]:
             bad.append(("bitmap_resolution->sbix ppem", [got, exp]))
+    if fmt in gen.BITMAP:
+        # the images themselves are rendered at the configured height (resvg -h <bitmap_resolution>)
+        sizes = [v for v in (info.get("bitmap_px") or {}).values() if v]
+        if not sizes or any(v[1] != val("bitmap_resolution") for v in sizes):
+            bad.append(("bitmap_resolution->image height", [sorted(set(v[1] for v in sizes)), val("bitmap_resolution")]))
+    if info["name"].get("4") != val("family") + " Regular":
+        bad.append(("family->name[4]", [info["name"].get("4"), val("family") + " Regular"]))
     if "GSUB" in info["tables"]:
         want = [["%x" % c for c in (0x1F469, 0x200D, 0x1F91D)]]
         got = [[rev.get(c) for c in comps] for comps, _ in info.get("ligatures", [])]
@@ -490,6 +499,27 @@ def judge_single(case, res):
             out.append({"class": "option-not-reflected", "detail": {"part": "B", "field": m["field"], "oracle": oracle, "mode": mode,
                                                                     "value": m["value"], "got_want": d, "fmt": m["fmt"], "warm": m["warm"] and k == 0}})
         shas.append(r["listing"].get(m["var"]["output_file"]))
+    tm = __import__("re").match(r"translate\((-?\d+), (-?\d+)\)$", str(m["value"])) if m["field"] == "transform" else None
+    if tm and ins["base"].get("ok"):
+        dx, dy = int(tm.group(1)), int(tm.group(2))
+        for k, mode in enumerate(m["modes"]):
+            i = ins.get("v%d" % k)
+            if not (i and i.get("ok")):
+                continue
+            bb, vb = ins["base"]["info"].get("glyf_bounds") or {}, i["info"].get("glyf_bounds") or {}
+            if m["fmt"] in ("glyf", "glyf_colr_0", "glyf_colr_1") and bb:
+                moved = [g for g in bb if g != ".notdef" and g in vb and all(abs(vb[g][j] - bb[g][j] - (dx, dy, dx, dy)[j]) <= 1 for j in range(4))]
+                total = [g for g in bb if g != ".notdef"]
+                if len(moved) != len(total):
+                    out.append({"class": "option-not-reflected", "detail": {"part": "B", "field": "transform", "oracle": "transform->glyph placement", "mode": mode,
+                                                                            "value": m["value"], "fmt": m["fmt"], "got_want": [len(moved), len(total)]}})
+            cb, cv = ins["base"]["info"].get("clips") or {}, i["info"].get("clips") or {}
+            if m["fmt"].endswith("colr_1") and cb:
+                q = m["var"].get("clipbox_quantization") or int(round(m["var"].get("upem", 1024) * 0.02))
+                off = [g for g in cb if g in cv and any(abs(cv[g][j] - cb[g][j] - (dx, dy, dx, dy)[j]) > q + 1 for j in range(4))]
+                if off:
+                    out.append({"class": "option-not-reflected", "detail": {"part": "B", "field": "transform", "oracle": "transform->clip boxes", "mode": mode,
+                                                                            "value": m["value"], "fmt": m["fmt"], "got_want": [off[:2], [dx, dy, q]]}})
     if len(shas) == 2 and shas[0] != shas[1]:
         out.append({"class": "delivery-routes-differ", "detail": {"part": "B", "field": m["field"], "mode": "+".join(m["modes"]), "value": m["value"], "fmt": m["fmt"], "warm": m["warm"]}})
     if shas and METAMORPHIC_EFFECT.get(m["field"]) and m["value"] != _default(m["field"]) and m["fmt"] in ("glyf_colr_1", "glyf_colr_0", "glyf", "picosvg", "cff2_colr_1"):
